@@ -433,6 +433,39 @@ def run(ctx):
                                            'input': {'cells': {k: str(v) for k, v in cells.items()}},
                                            'expected': want, 'got': got})
 
+    # (3b) the same in LARGE ranges: an error element behind long runs of ordinary values (0, FALSE, 7, "x") — none of
+    # them is an empty cell, so nothing of the range may be dropped — as a wide row, a tall column and a block;
+    # the error must be the result and must be handed on to a dependant
+    import openpyxl.utils as _ou
+    for filler in (0, False, 7, 'x', 0.0):
+        for shape, n in (('row', 130), ('col', 130), ('row', 260), ('block', 150)):
+            for name in ('SUM', 'AVERAGE', 'MAX', 'MIN'):
+                code = CODES[(n + len(name)) % 7]
+                if shape == 'row':
+                    addrs = [f'{_ou.get_column_letter(k + 1)}1' for k in range(n)]
+                    rng_txt = f'A1:{_ou.get_column_letter(n)}1'
+                elif shape == 'col':
+                    addrs = [f'A{k + 1}' for k in range(n)]
+                    rng_txt = f'A1:A{n}'
+                else:
+                    addrs = [f'{_ou.get_column_letter(c + 1)}{r + 1}' for r in range(n // 3) for c in range(3)]
+                    rng_txt = f'A1:C{n // 3}'
+                cells = {f'Sheet1!{a}': filler for a in addrs}
+                cells[f'Sheet1!{addrs[-8]}'] = f'={code}'
+                cells['Sheet1!ZZ900'] = f'={name}({rng_txt})'
+                cells['Sheet1!ZZ901'] = '=ZZ900+1'
+                want = 'E:' + CODE_WIRE[code]
+                for probe in ('Sheet1!ZZ900', 'Sheet1!ZZ901'):
+                    got = eval_cells(cells, {}, probe)
+                    res.evaluations += 1
+                    res.count('aggregate-error-large-range')
+                    res.nontrivial.add((name, 'large', shape, n, repr(filler), probe))
+                    if got != want:
+                        res.violations.append({'what': f'{name}: an error element of a large range is not the result / not handed on',
+                                               'input': {'range': rng_txt, 'filler': repr(filler), 'error at': addrs[-8],
+                                                         'code': code, 'probe': probe, 'formula': cells['Sheet1!ZZ900']},
+                                               'expected': want, 'got': got})
+
     # ---------------------------------------------------------------- (4) IS-family, NA
     reqs, meta = [], []
     for fn in ['ISERROR', 'ISERR', 'ISNA', 'ISNUMBER', 'ISTEXT', 'ISBLANK']:
